@@ -79,6 +79,15 @@ func (c *Ctx) treeInfo(mod, tn string, key, inner int, depth int) (lists int, ps
 	return
 }
 
+func ownsObjList(ts *TypeSpec) bool {
+	for i := range ts.Fields {
+		if ts.Fields[i].Kind == "list_obj" {
+			return true
+		}
+	}
+	return false
+}
+
 // msgCases enumerates (type, key, shape) for all 170 types.
 // shapes: uniform list lengths ns; innerAll: explore every key of nested tables too (frame x extension).
 func (c *Ctx) msgCases(ns []int, innerAll bool, mixed bool) []MsgCase {
@@ -129,6 +138,13 @@ func (c *Ctx) msgCases(ns []int, innerAll bool, mixed bool) []MsgCase {
 					}
 					for _, n := range ns {
 						out = append(out, MsgCase{Mod: mod, Typ: tn, Key: k, Inner: in, N: n})
+					}
+					// a type that owns a list of objects: also lists long enough to cross small block / batch sizes
+					// (element factories that hand out slots of a reused block alias from the 5th or 9th element on)
+					if ownsObjList(ts) && len(ns) > 1 {
+						for _, n := range []int{5, 9} {
+							out = append(out, MsgCase{Mod: mod, Typ: tn, Key: k, Inner: in, N: n})
+						}
 					}
 					if mixed && lists > 1 {
 						// mixed shapes: one list of length 1 or 2 at each position in turn, the rest empty; (1,1,0..)
